@@ -4,6 +4,10 @@ Property theorems only (helper lemmas in Proofs/Table.lean).
 -/
 import Model.Table
 import Proofs.Table
+import Model.TableTools
+import Proofs.TableTools
+import Model.TableMdcev
+import Proofs.TableMdcev
 
 namespace C13
 
@@ -84,6 +88,33 @@ theorem scale_one_column [NumOps α] (t : Table α) (j : Nat) (s : α) :
     intro r _
     simp only [Function.comp, modifyAt_getElem?, ↓reduceIte]
     rfl
+
+/-- **`mdcev_count` stores, for every row, the number of the listed columns whose entry on that row
+is non-zero** (a column listed twice counts twice), in a new last column — or in place when the
+column exists — and touches nothing else: same labels, every other cell unchanged.  An unknown name
+in the list ⇒ KeyError and nothing changes. -/
+theorem mdcev_count_values [NumOps α] (t : Table α) (js : List Nat) (name : String)
+    (hw : ∀ r ∈ t.rows, r.2.length = t.cols.length) :
+    (colIdx t.cols name = none →
+      (t.mdcevCount js name).cols = t.cols ++ [name] ∧ (t.mdcevCount js name).labels = t.labels ∧
+      (t.mdcevCount js name).column t.cols.length = t.rows.map (fun r => Num.nat (nonZeroCount js r.2)) ∧
+      ∀ j, j < t.cols.length → (t.mdcevCount js name).column j = t.column j) ∧
+    (∀ k, colIdx t.cols name = some k →
+      (t.mdcevCount js name).cols = t.cols ∧ (t.mdcevCount js name).labels = t.labels ∧
+      (t.mdcevCount js name).column k = t.rows.map (fun r => Num.nat (nonZeroCount js r.2)) ∧
+      ∀ j, j ≠ k → (t.mdcevCount js name).column j = t.column j) := by
+  refine ⟨fun hn => mdcevCount_new t js name hn hw, fun k hk => ?_⟩
+  obtain ⟨a, b, c, d, _⟩ := mdcevCount_existing t js name k hk hw
+  exact ⟨a, b, c, d⟩
+
+/-- the call on the object keeps the invariant of `history_inv_partial` at any point of a sequence
+(same guard as for `scale_column`: the panel column is not overwritten); a refused call (unknown
+name in the list) leaves the object as it was -/
+theorem mdcev_count_inv_partial [NumOps α] (db : DB α) (names : List String) (name : String) (h : Inv db)
+    (hg : db.panelCol ≠ some name) :
+    Inv (okOr db (db.mdcevCount names name)) ∧
+    (colIdxs db.t.cols names = none → okOr db (db.mdcevCount names name) = db) :=
+  ⟨mdcevCount_inv db names name h hg, fun hn => by simp [DB.mdcevCount, hn, okOr]⟩
 
 /-! ## folds -/
 
@@ -254,6 +285,184 @@ theorem flatten_roundtrip [NumOps α] (heq : EqOK α) (rows : List (Row α)) (j 
     rw [this, List.map_id]
     exact nodup_dedup heq _
 
+
+/-! ## the helpers of `tools/database.py` called directly (any row order, defaults and options) -/
+
+/-- **The automatic detection of the identical columns (`identical_columns=None`) is exact wherever
+the rows of an individual are in the table**: a column is kept once iff any two rows with the same
+id — consecutive or not — agree on it. -/
+theorem auto_identical_exact [NumOps α] (heq : EqOK α) (t : Table α) (j c : Nat) :
+    c ∈ identicalCols t j ↔ c < t.cols.length ∧
+      ∀ r ∈ t.rows, ∀ r' ∈ t.rows, cellD r.2 j = cellD r'.2 j → cellD r.2 c = cellD r'.2 c :=
+  identicalCols_iff heq t j c
+
+/-- **`flatten_database(df, merge_id)` with every optional argument at its default loses and invents
+nothing, for ANY order of the rows and any labels**: one flat row per individual (order of first
+appearance); every cell of every row can be read back — either under the name of its column (kept
+once) or as `<k>_<column>` where the row is the `k`-th row of its individual in table order — and
+every cell of the flat table is a cell of a row of that individual. -/
+theorem flatten_direct_reads_back [NumOps α] (heq : EqOK α) (t : Table α) (mergeId : String) (j : Nat)
+    (hj : colIdx t.cols mergeId = some j) :
+    ∃ out, flattenDirect t mergeId none none = .ok out ∧
+      out.map (·.1) = dedup (t.column j) ∧
+      (∀ r ∈ t.rows, ∀ c, c < t.cols.length → c ≠ j →
+        ∃ g ∈ out, g.1 = cellD r.2 j ∧
+          ((CellName.common (t.cols.getD c ""), cellD r.2 c) ∈ g.2 ∨
+           ∃ o, (t.rows.filter fun r' => Num.eq (cellD r'.2 j) (cellD r.2 j))[o]? = some r ∧
+             (CellName.obs (.pos (o + 1)) (t.cols.getD c ""), cellD r.2 c) ∈ g.2)) ∧
+      (∀ g ∈ out, ∀ n v, (n, v) ∈ g.2 →
+        ∃ r ∈ t.rows, cellD r.2 j = g.1 ∧ ∃ c, c ≠ j ∧ v = cellD r.2 c ∧
+          (n = CellName.common (t.cols.getD c "") ∨ ∃ k, n = CellName.obs k (t.cols.getD c ""))) := by
+  refine ⟨(groupsBy t.rows j).map (flatRow t.cols j (identicalCols t j) none), ?_, ?_, ?_, ?_⟩
+  · simp [flattenDirect, hj]
+  · simp [groupsBy, flatRow, List.map_map, Function.comp_def, Table.column]
+  · intro r hr c hc hcj
+    have hg0 : (cellD r.2 j, t.rows.filter fun x => Num.eq (cellD x.2 j) (cellD r.2 j)) ∈ groupsBy t.rows j :=
+      (mem_groupsBy heq _ _ _).mpr ⟨⟨r, hr, rfl⟩, rfl⟩
+    have hrg : r ∈ t.rows.filter fun x => Num.eq (cellD x.2 j) (cellD r.2 j) :=
+      (mem_group_rows heq _ _ _ _).mpr ⟨hr, rfl⟩
+    obtain ⟨o, ho⟩ := List.mem_iff_getElem?.mp hrg
+    refine ⟨_, List.mem_map_of_mem hg0, rfl, ?_⟩
+    have hreads := flatRow_reads t.cols j (identicalCols t j) none
+      (cellD r.2 j, t.rows.filter fun x => Num.eq (cellD x.2 j) (cellD r.2 j)) o r ho c hcj
+    by_cases hid : c ∈ identicalCols t j
+    · left
+      obtain ⟨first, hf⟩ : ∃ first, (t.rows.filter fun x => Num.eq (cellD x.2 j) (cellD r.2 j))[0]? = some first := by
+        cases hl : (t.rows.filter fun x => Num.eq (cellD x.2 j) (cellD r.2 j)) with
+        | nil => rw [hl] at hrg; cases hrg
+        | cons a rest => exact ⟨a, rfl⟩
+      have hmem := hreads.2.1 hid first hf
+      have hfm := (mem_group_rows heq _ _ _ _).mp (List.mem_of_getElem? hf)
+      have := ((identicalCols_iff heq t j c).mp hid).2 first hfm.1 r hr hfm.2
+      rw [← this]; exact hmem
+    · right
+      exact ⟨o, ho, hreads.2.2 hc hid (by simp)⟩
+  · intro g hg n v hnv
+    obtain ⟨g0, hg0, rfl⟩ := List.mem_map.mp hg
+    obtain ⟨⟨r0, hr0, hid0⟩, h2⟩ := (mem_groupsBy heq _ _ _).mp hg0
+    have hr0g : r0 ∈ g0.2 := by rw [h2]; exact (mem_group_rows heq _ _ _ _).mpr ⟨hr0, hid0⟩
+    obtain ⟨first, hf⟩ : ∃ first, g0.2[0]? = some first := by
+      cases hl : g0.2 with
+      | nil => rw [hl] at hr0g; cases hr0g
+      | cons a rest => exact ⟨a, rfl⟩
+    obtain ⟨r, hr, c, hcj, hv, hn⟩ := flatRow_sound t.cols j (identicalCols t j) none g0 first hf n v hnv
+    rw [h2] at hr
+    obtain ⟨hr1, hr2⟩ := (mem_group_rows heq _ _ _ _).mp hr
+    refine ⟨r, hr1, hr2, c, hcj, hv, ?_⟩
+    rcases hn with ⟨_, hn, _⟩ | ⟨_, k, hn⟩
+    · exact Or.inl hn
+    · exact Or.inr ⟨k, hn⟩
+
+/-- **With options** (`row_name`, `identical_columns` given): whenever the call succeeds, the flat
+table is one `flatRow` per individual; without `identical_columns` the identical columns are the
+detected ones (exact by `auto_identical_exact`); with `row_name` the entries naming the observations
+are pairwise different inside every individual (no cell overwrites another); in every flat row a
+column declared/detected identical holds the value of the individual's FIRST row and every other
+column of the `o`-th row is stored under the key of that row (`flatRow_reads`). -/
+theorem flatten_direct_ok_shape [NumOps α] (heq : EqOK α) (t : Table α) (mergeId : String)
+    (rowName : Option String) (identical : Option (List String)) (out : List (α × List (CellName α × α)))
+    (h : flattenDirect t mergeId rowName identical = .ok out) :
+    ∃ j ident jr, colIdx t.cols mergeId = some j ∧
+      out = (groupsBy t.rows j).map (flatRow t.cols j ident jr) ∧
+      (identical = none → ident = identicalCols t j) ∧
+      (rowName = none → jr = none) ∧
+      (∀ rn, rowName = some rn → ∃ q, colIdx t.cols rn = some q ∧ jr = some q ∧ (q = j ∨ q ∉ ident) ∧
+        ∀ g ∈ groupsBy t.rows j, (g.2.map fun r => cellD r.2 q).Nodup) ∧
+      (∀ g ∈ groupsBy t.rows j, ∀ o r, g.2[o]? = some r → ∀ c, c < t.cols.length → c ≠ j →
+        (c ∈ ident → ∀ first, g.2[0]? = some first →
+          (CellName.common (t.cols.getD c ""), cellD first.2 c) ∈ (flatRow t.cols j ident jr g).2) ∧
+        (c ∉ ident → some c ≠ jr →
+          (CellName.obs (obsKey jr o r) (t.cols.getD c ""), cellD r.2 c) ∈ (flatRow t.cols j ident jr g).2)) := by
+  unfold flattenDirect at h
+  split at h
+  · cases h
+  · rename_i j hj
+    have reads : ∀ ident jr, ∀ g ∈ groupsBy t.rows j, ∀ o r, g.2[o]? = some r → ∀ c, c < t.cols.length → c ≠ j →
+        (c ∈ ident → ∀ first, g.2[0]? = some first →
+          (CellName.common (t.cols.getD c ""), cellD first.2 c) ∈ (flatRow t.cols j ident jr g).2) ∧
+        (c ∉ ident → some c ≠ jr →
+          (CellName.obs (obsKey jr o r) (t.cols.getD c ""), cellD r.2 c) ∈ (flatRow t.cols j ident jr g).2) := by
+      intro ident jr g _ o r ho c hc hcj
+      have := flatRow_reads t.cols j ident jr g o r ho c hcj
+      exact ⟨this.2.1, this.2.2 hc⟩
+    simp only at h
+    split at h
+    · cases h
+    · rename_i ident hident
+      have hauto : identical = none → ident = identicalCols t j := by
+        intro hn
+        subst hn
+        simp only at hident
+        exact (Except.ok.inj hident).symm
+      split at h
+      · refine ⟨j, ident, none, hj, (Except.ok.inj h).symm, hauto, fun _ => rfl, fun rn hrn => (by cases hrn), reads ident none⟩
+      · rename_i rn
+        split at h
+        · cases h
+        · rename_i q hq
+          split at h
+          · cases h
+          · rename_i hnk
+            split at h
+            · cases h
+            · rename_i hd
+              refine ⟨j, ident, some q, hj, (Except.ok.inj h).symm, hauto, fun hn => (by cases hn), ?_, reads ident (some q)⟩
+              intro rn' hrn'
+              cases hrn'
+              refine ⟨q, hq, rfl, ?_, ?_⟩
+              · have hnk' : ¬ q = j → q ∈ varyingCols t.cols.length j ident := by simpa using hnk
+                by_cases hqj : q = j
+                · exact Or.inl hqj
+                · exact Or.inr ((mem_varyingCols _ _ _ _).mp (hnk' hqj)).2.1
+              · intro g hg
+                have hall : (groupsBy t.rows j).all (fun g => allDistinct (g.2.map fun r => cellD r.2 q)) = true := by
+                  simpa using hd
+                exact (allDistinct_iff heq _).mp (List.all_eq_true.mp hall g hg)
+
+/-- **Refused calls**: an unknown `merge_id` ⇒ KeyError; with the defaults for `identical_columns`, a
+`row_name` column (the id column or a column that varies) holding the same entry twice inside one
+individual ⇒ BiogemeError (no observation silently overwrites another). -/
+theorem flatten_direct_refusals [NumOps α] (heq : EqOK α) (t : Table α) (mergeId : String)
+    (rowName : Option String) (identical : Option (List String)) :
+    (colIdx t.cols mergeId = none → flattenDirect t mergeId rowName identical = .error .keyError) ∧
+    (∀ j rn q, colIdx t.cols mergeId = some j → colIdx t.cols rn = some q →
+      (q = j ∨ (q < t.cols.length ∧ q ∉ identicalCols t j)) →
+      (∃ g ∈ groupsBy t.rows j, ¬ (g.2.map fun r => cellD r.2 q).Nodup) →
+      flattenDirect t mergeId (some rn) none = .error .biogeme) := by
+  refine ⟨fun h => by simp [flattenDirect, h], ?_⟩
+  intro j rn q hj hq hqv ⟨g, hg, hnd⟩
+  have h1 : (q == j || (varyingCols t.cols.length j (identicalCols t j)).contains q) = true := by
+    rcases hqv with h | ⟨h1, h2⟩
+    · simp [h]
+    · by_cases hqj : q = j
+      · simp [hqj]
+      · have := (mem_varyingCols t.cols.length j (identicalCols t j) q).mpr ⟨h1, h2, hqj⟩
+        simp [this]
+  have h2 : ((groupsBy t.rows j).all fun g => allDistinct (g.2.map fun r => cellD r.2 q)) = false := by
+    rw [List.all_eq_false]
+    refine ⟨g, hg, ?_⟩
+    intro hd
+    exact hnd ((allDistinct_iff heq _).mp hd)
+  simp only [flattenDirect, hj, hq, h1, h2]
+  rfl
+
+/-- **`mdcev_row_split` is positional** (whatever the labels): without a range every row, in table
+order, as a table of its own; with a range the rows at those positions (as `extract_rows`);
+a position outside 0..n-1 ⇒ IndexError. -/
+theorem row_split_positional (db : DB α) :
+    db.rowSplit none = .ok (db.t.rows.map fun r => [r]) ∧
+    (∀ pos, db.rowSplit (some pos) = (db.extract pos).map (List.map fun r => [r])) ∧
+    (∀ pos : List Int, (∃ i ∈ pos, i < 0 ∨ i ≥ (db.t.rows.length : Int)) → db.rowSplit (some pos) = .error .indexError) :=
+  ⟨rowSplit_all db, rowSplit_eq_extract db, rowSplit_err db⟩
+
+/-- **`get_number_of_observations` / `get_sample_size`**: the rows of the table; in panel mode the
+entries of the individual map (which, by the invariant of `history_inv_partial`, is the map of the
+runs of the current id column). -/
+theorem sample_size_def (db : DB α) :
+    db.nObs = db.t.rows.length ∧ (db.panelCol = none → db.sampleSize = db.t.rows.length) ∧
+    (∀ c, db.panelCol = some c → db.sampleSize = db.map.length) := by
+  refine ⟨rfl, fun h => by simp [DB.sampleSize, h], fun c h => by simp [DB.sampleSize, h]⟩
+
 /-! ## operation sequences -/
 
 /-- **Invariant over arbitrary sequences of remove / add_column / define_variable /
@@ -345,5 +554,46 @@ example : isFoldPartition [0, 2, 5, 9] 2 [([5, 9], [2, 0]), ([2, 0], [5, 9])] = 
 
 example : groupsBy ([(0, [2, 7]), (1, [1, 8]), (2, [2, 9])] : List (Row Int)) 0 =
     [(2, [(0, [2, 7]), (2, [2, 9])]), (1, [(1, [1, 8])])] := by decide
+
+/-- a panel file stored wave by wave (ids 1,2,3,1,2,3) with labels that are not positions: `age` is
+detected identical, `cost` and `w` vary although no two rows of one individual are adjacent -/
+example :
+    let t : Table Int := ⟨["id", "age", "cost", "w"],
+      [(5, [1, 20, 7, 1]), (3, [2, 30, 8, 1]), (9, [3, 40, 9, 1]), (5, [1, 20, 4, 2]), (0, [2, 30, 5, 2]), (1, [3, 40, 6, 2])]⟩
+    identicalCols t 0 = [0, 1] ∧
+    (flattenDirect t "id" none none).toOption.map (fun o => o.map fun g => (g.1, g.2.map (·.2))) =
+      some [(1, [20, 7, 1, 4, 2]), (2, [30, 8, 1, 5, 2]), (3, [40, 9, 1, 6, 2])] ∧
+    (flattenDirect t "id" (some "w") none).toOption.map (fun o => o.map fun g => (g.1, g.2.map (·.2))) =
+      some [(1, [20, 7, 4]), (2, [30, 8, 5]), (3, [40, 9, 6])] ∧
+    (flattenDirect t "id" none (some [])).toOption.map (fun o => o.map fun g => g.2.length) = some [6, 6, 6] ∧
+    (flattenDirect t "id" (some "age") none).toOption = none ∧
+    (flattenDirect t "nope" none none).toOption = none ∧
+    (flattenDirect t "id" none (some ["zz"])).toOption = none := by
+  decide
+
+/-- one late row (ids 1,1,2,2,1) whose `zone` differs only there: `zone` varies -/
+example :
+    let t : Table Int := ⟨["id", "zone"], [(0, [1, 4]), (1, [1, 4]), (2, [2, 5]), (3, [2, 5]), (4, [1, 6])]⟩
+    identicalCols t 0 = [0] ∧
+    (flattenDirect t "id" none none).toOption.map (fun o => o.map fun g => (g.1, g.2.map (·.2))) =
+      some [(1, [4, 4, 6]), (2, [5, 5])] ∧
+    (match flattenDirect t "id" (some "zone") none with | .error .biogeme => true | _ => false) = true ∧
+    (match flattenDirect t "nope" (some "zone") none with | .error .keyError => true | _ => false) = true := by
+  decide
+
+example :
+    let db : DB Int := ⟨⟨["x"], [(7, [1]), (2, [5]), (4, [9])]⟩, 0, none, []⟩
+    (db.rowSplit none).toOption = some [[(7, [1])], [(2, [5])], [(4, [9])]] ∧
+    (db.rowSplit (some [2, 0])).toOption = some [[(4, [9])], [(7, [1])]] ∧
+    (db.rowSplit (some [3])).toOption = none ∧ db.sampleSize = 3 := by
+  decide
+
+/-- quantities with a negative and a zero entry, labels with gaps: new column, then overwritten in place -/
+example :
+    let t : Table Int := ⟨["a", "b", "c"], [(4, [0, 0, 1]), (2, [3, 0, 0]), (9, [-2, 3, 0])]⟩
+    (t.mdcevCount [0, 1] "n").rows = [(4, [0, 0, 1, 0]), (2, [3, 0, 0, 1]), (9, [-2, 3, 0, 2])] ∧
+    (t.mdcevCount [0, 0, 2] "b").rows = [(4, [0, 1, 1]), (2, [3, 2, 0]), (9, [-2, 2, 0])] ∧
+    ((⟨t, 0, none, []⟩ : DB Int).mdcevCount ["a", "zz"] "n").toOption.isNone = true := by
+  decide
 
 end C13
